@@ -14,8 +14,8 @@ CHECKS = {
          "Exploration: every execution of the five scalar-multiplication entry points is compared (pointer identity, coordinate validity, affine point, encoding) with an independent big-integer double-and-add, under several receiver states per case, with constructed inputs covering the whole group of order 8l, projective rescalings, non-canonical limb forms, digit-extreme scalars and all term counts; coverage of (position, digit) pairs of both recodings is measured. It cannot enumerate l x 8l inputs; it decides the property on what was run.", "5 C01"),
  "C02": ("reference-model monitor: affine Edwards addition law in math/big vs. Add/Subtract/Negate/MultByCofactor on structured (8x8 torsion x prime-order combinations) and sampled operand pairs",
          "Exploration: all 384 structured operand combinations (exceptional cases P=Q, Q=-P, small-order sums, identity) are walked repeatedly with fresh representations, plus independent pairs; each result is checked for validity and equality with the complete addition law. Sampling of the prime-order parts, not enumeration.", "5 C02"),
- "C03": ("two-run leakage-trace equality monitor on a source-instrumented build generated from the working tree (branches, indices, shift counts, divisors, foreign-call arguments)",
-         "Exploration: for every constant-time entry point the recorded leakage trace under adversarial and uniform secret assignments must equal the trace of a reference assignment; a divergence names the function of the deciding event. The known finding K1 (checkInitialized) is matched by function and witness class and everything else is still a violation. It observes the source-level leakage model only on the executions run.", "3.5, 5 C03"),
+ "C03": ("two-run leakage-trace equality monitors: (a) source-instrumented build generated from the working tree (branches, indices, shift counts, divisors, foreign-call arguments); (b) machine-level instruction/memory-address traces of the uninstrumented binary under valgrind lackey",
+         "Exploration: for every constant-time entry point the recorded leakage trace under adversarial and uniform secret assignments must equal the trace of a reference assignment; a divergence names the function of the deciding event. The known finding K1 (checkInitialized) is matched by function and witness class and everything else is still a violation. The machine-level stage sees the assembly and whatever the compiler emitted; heap objects allocated inside a traced call are compared coarsely (see DESIGN 3.6). Both observe only the executions run; micro-architectural timing is out of reach.", "3.5, 5 C03"),
  "C04": ("reference-model monitor: Euler-criterion/ModSqrt decoding oracle vs. Point.SetBytes over constructed 32-byte classes and all other lengths",
          "Exploration: accept/reject and the decoded point are compared with the oracle over boundary, non-canonical, neighbour, bit-flip and uniform inputs and every wrong length up to 100. 2^256 inputs are sampled by class, not enumerated.", "5 C04"),
  "C05": ("reference-model monitor: RFC 8032 encoding of the model point vs. Bytes() over every construction route/projective scaling/history of the same point; round trips",
